@@ -166,7 +166,7 @@ static void touch_location(struct hwloc_location *l) {
 /* The shared well-formedness oracle (hwmodel topo) needs time and memory LINEAR in the largest gp_index of a dump (8 s / 16 GB at
  * 2^31, unbounded above): loaded topologies with a gp_index >= 2^22 (only reachable by mutating a gp_index attribute) are not
  * dumped for it (counted: `# hugegp-skipped`); everything else (battery, re-import, dup, distances probe, sanitizers) still runs. */
-static int g_nodump; static unsigned long n_hugegp;
+static int g_nodump; static unsigned long n_hugegp, n_macat;
 static int has_huge_gp(hwloc_topology_t t) {
   int depth = hwloc_topology_get_depth(t);
   static const int sd[] = {HWLOC_TYPE_DEPTH_NUMANODE, HWLOC_TYPE_DEPTH_BRIDGE, HWLOC_TYPE_DEPTH_PCI_DEVICE, HWLOC_TYPE_DEPTH_OS_DEVICE, HWLOC_TYPE_DEPTH_MISC, HWLOC_TYPE_DEPTH_MEMCACHE};
@@ -1186,6 +1186,52 @@ static void dd_prologue(FILE *fplan, const char *outdir) {
   free(m.p);
 }
 
+/* memory-attribute catalogue: a valid export with one user attribute that has values (with and without initiators), renamed to every
+ * built-in attribute name (incl. the virtual ones, Capacity and Locality, which cannot hold values) x every flags word the importer may
+ * compare with: each document must load or fail cleanly, and the loaded topology must survive the read-only probes */
+static int build_mdoc(struct buf *out, unsigned long maflags, int v2) {
+  hwloc_topology_t t; hwloc_memattr_id_t id;
+  if (hwloc_topology_init(&t) < 0) return -1;
+  if (hwloc_topology_set_synthetic(t, "pack:2 [numa] core:2 pu:1") < 0 || hwloc_topology_load(t) < 0) { hwloc_topology_destroy(t); return -1; }
+  if (hwloc_memattr_register(t, "VerifCatAttr", maflags, &id) < 0) { hwloc_topology_destroy(t); return -1; }
+  for (unsigned i = 0; i < 2; i++) {
+    hwloc_obj_t n = hwloc_get_obj_by_type(t, HWLOC_OBJ_NUMANODE, i);
+    struct hwloc_location loc, *lp = NULL;
+    if (maflags & HWLOC_MEMATTR_FLAG_NEED_INITIATOR) { loc.type = HWLOC_LOCATION_TYPE_CPUSET; loc.location.cpuset = hwloc_get_obj_by_type(t, HWLOC_OBJ_PACKAGE, i)->cpuset; lp = &loc; }
+    hwloc_memattr_set_value(t, id, n, lp, 0, 100 + i);
+  }
+  char *xb = NULL; int xl = 0;
+  int err = hwloc_topology_export_xmlbuffer(t, &xb, &xl, v2 ? HWLOC_TOPOLOGY_EXPORT_XML_FLAG_V2 : 0);
+  if (!err) { b_set(out, xb, (size_t) xl - 1); hwloc_free_xmlbuffer(t, xb); }
+  hwloc_topology_destroy(t);
+  return err;
+}
+static void ma_prologue(FILE *fplan, const char *outdir) {
+  static const char *names[] = {"Capacity", "Locality", "Bandwidth", "Latency", "ReadBandwidth", "WriteBandwidth", "ReadLatency", "WriteLatency", "VerifCatAttr", ""};
+  static const unsigned long regflags[] = {HWLOC_MEMATTR_FLAG_HIGHER_FIRST, HWLOC_MEMATTR_FLAG_LOWER_FIRST,
+                                           HWLOC_MEMATTR_FLAG_HIGHER_FIRST | HWLOC_MEMATTR_FLAG_NEED_INITIATOR, HWLOC_MEMATTR_FLAG_LOWER_FIRST | HWLOC_MEMATTR_FLAG_NEED_INITIATOR};
+  struct buf m = {0}; unsigned idn = 0; char path[1200];
+  for (unsigned f = 0; f < 4; f++) for (unsigned k = 0; k < sizeof names / sizeof *names; k++) {
+    if (build_mdoc(&m, regflags[f], rng_chance(25)) < 0) die("memattr catalogue: cannot build a document");
+    const unsigned char *q = xmemmem(m.p, m.n, "name=\"VerifCatAttr\"");
+    if (!q) die("memattr catalogue: exported attribute not found");
+    size_t off = (size_t) (q - m.p) + 6;
+    b_splice(&m, off, strlen("VerifCatAttr"), names[k], strlen(names[k]));
+    char id[32]; snprintf(id, sizeof id, "m%u", idn++);
+    unsigned long xflags = gen_xflags() & ~(unsigned long) HWLOC_TOPOLOGY_FLAG_NO_MEMATTRS;
+    char mode = rng_chance(85) ? 'B' : 'F';
+    snprintf(path, sizeof path, "%s/%s.xml", outdir, id);
+    if (write_file(path, m.p, m.n) < 0) _exit(2);
+    fprintf(fplan, "%s %c %lu %d %zu %016llx ", id, mode, xflags, 0, m.n, (unsigned long long) fnv(m.p, m.n)); fflush(fplan);
+    int res = run_case_lc(id, m.p, m.n, mode, xflags, 0, path, 0, 0);
+    if (res == 1) fprintf(fplan, "loaded\n"); else if (res == 2) { fprintf(fplan, "failed\n"); remove(path); }
+    else { if (res == '7') fprintf(fplan, "skipped-F71\n"); else fprintf(fplan, "skipped-F05%c\n", res); remove(path); }
+    fflush(fplan);
+    n_macat++;
+  }
+  free(m.p);
+}
+
 int main(int argc, char **argv) {
   const char *lx = getenv("HWLOC_LIBXML");
   nolibxml = lx && !atoi(lx);
@@ -1227,6 +1273,7 @@ int main(int argc, char **argv) {
   for (unsigned i = 0; i < ndocs; i++) { struct delem de[2]; if (!docs[i].isdiff && find_delems(docs[i].p, docs[i].n, de, 2) >= 1) distdocs[ndistdocs++] = i; }
   fprintf(fplan, "# seeds %u (diff %u, with distances %u) backend %s\n", ndocs, ndiffdocs, ndistdocs, nolibxml ? "nolibxml" : "libxml"); fflush(fplan);
   if (!env_on("VERIF_NO_DISTDROP")) dd_prologue(fplan, outdir);
+  if (!env_on("VERIF_NO_MACAT")) ma_prologue(fplan, outdir);
   struct buf m = {0};
   for (unsigned long i = 0; i < n; i++) {
     char id[32]; snprintf(id, sizeof id, "c%lu", i);
@@ -1296,6 +1343,7 @@ int main(int argc, char **argv) {
   fprintf(fplan, "# f72-skipped %lu\n", n_f72);
   fprintf(fplan, "# memcache-leaf-skipped %lu\n", n_mcleaf);
   fprintf(fplan, "# hugegp-skipped %lu\n", n_hugegp);
+  fprintf(fplan, "# memattr-catalogue %lu\n", n_macat);
   fprintf(fplan, "# distoracle applied %lu noopinion %lu probes %lu\n", n_oracle, n_oracle_noopinion, n_probe);
   fprintf(fplan, "# done\n");
   fclose(fplan); fclose(fdump);
